@@ -1,7 +1,8 @@
 (* C03 — property theorems only (proved in C03/Proofs*.v; refutations in C03/Variants.v).
    Every statement quantifies over ALL schedules (lists of (thread, choice); a choice selects
    the waiter a notify wakes, a spurious condition-variable wake-up, a spurious weak-CAS
-   failure), any number of threads where the usage allows it, any capacity / script lengths.
+   failure, and -- channel futex reader and ring -- a futex wait that would block but returns
+   early: interrupted (EINTR) or spurious wake-up), any number of threads where the usage allows it, any capacity / script lengths.
    "enabled" = the thread can take a step with choice 0, i.e. WITHOUT counting spurious
    wake-ups as progress.  "Empty" / "full" are the code's own tests on cursors / counts. *)
 From MV Require Import C03.Model C03.ProofsCommon.
@@ -33,6 +34,27 @@ Theorem chan_futex_no_lost_wakeup : forall n cap wl nreads wk sched t,
    exists u, (u < n)%nat /\ f_pending (f_pc (f_thr s u)) = true /\ f_enabled s u).
 Proof. exact chan_futex_no_lost_wakeup_all. Qed.
 Print Assumptions chan_futex_no_lost_wakeup.
+
+(* a futex wait that returns early (choice 2 = EINTR, 3 = spurious) only sends the reader back
+   into its loop: it does not give up (script unchanged), does not consume (read_cursor unchanged),
+   and re-loads write_cursor next; the no-deadlock / no-lost-wake-up theorems above already
+   quantify over these choices *)
+Theorem chan_futex_early_return_rechecks : forall s t ch s' l,
+  f_pc (f_thr s t) = FRWait -> f_wcur s = f_reg (f_thr s t) -> (ch = 2 \/ ch = 3)%nat ->
+  fstep s t ch = Some (s', l) ->
+  f_pc (f_thr s' t) = FRSeg /\ f_k (f_thr s' t) = f_k (f_thr s t) /\ f_pend (f_thr s' t) = [] /\
+  f_rcur s' = f_rcur s /\ f_wcur s' = f_wcur s /\
+  (forall u, u <> t -> f_thr s' u = f_thr s u).
+Proof. exact f_early_return_rechecks. Qed.
+Print Assumptions chan_futex_early_return_rechecks.
+
+(* the reader takes a message only on the strength of a check (after its latest return from the
+   futex, early or not) that found the channel non-empty: it never consumes on a stale value *)
+Theorem chan_futex_take_only_after_nonempty_check : forall n cap wl nreads wk sched t,
+  let s := exec fsys fstep (finit n cap wl nreads wk) sched in
+  f_pc (f_thr s t) = FRStore -> f_reg (f_thr s t) <> ridx (f_rcur s + 1) (f_cap s).
+Proof. intros n cap wl nreads wk sched t. exact (chan_futex_take_only_after_nonempty_check_all n cap wl nreads wk sched t). Qed.
+Print Assumptions chan_futex_take_only_after_nonempty_check.
 
 (* ---------- (b) channel, condvar-waiting reader ---------- *)
 
@@ -79,6 +101,17 @@ Theorem rb_no_lost_wakeup : forall n nr cap md wl ks sched t, (md = GMSingle -> 
    exists u, (u < n)%nat /\ g_pending (g_pc (g_thr s u)) = true /\ g_enabled s u).
 Proof. exact ring_no_lost_wakeup_all. Qed.
 Print Assumptions rb_no_lost_wakeup.
+
+(* early futex return in the ring: back to the re-check, nothing else changes (read-once: the
+   reader keeps read_mutex) *)
+Theorem rb_early_return_rechecks : forall s t ch s' l,
+  g_pc (g_thr s t) = GRWait -> g_cursor s = g_reg (g_thr s t) -> (ch = 2 \/ ch = 3)%nat ->
+  gstep s t ch = Some (s', l) ->
+  g_pc (g_thr s' t) = GRSeg1 /\ g_k (g_thr s' t) = g_k (g_thr s t) /\ g_i (g_thr s' t) = g_i (g_thr s t) /\
+  g_rcur s' = g_rcur s /\ g_cursor s' = g_cursor s /\ g_rm s' = g_rm s /\
+  (forall u, u <> t -> g_thr s' u = g_thr s u).
+Proof. exact g_early_return_rechecks. Qed.
+Print Assumptions rb_early_return_rechecks.
 
 (* ---------- (d) array blocking queue (tids < nc consumers, the rest producers) ---------- *)
 
